@@ -885,10 +885,9 @@ get_buffer:
 			finish_shmem_buffer(mtdp, shmem->curr);
 		get_new_shmem_buffer(mtdp);
 
-		if (shmem->curr == -1) {
-			shmem->losts++;
+		/* the record that did not get a buffer was counted by get_new_shmem_buffer() */
+		if (shmem->curr == -1)
 			return NULL;
-		}
 
 		curr_buf = shmem->buffer[shmem->curr];
 	}
@@ -1157,8 +1156,11 @@ int record_trace_data(struct mcount_thread_data *mtdp, struct mcount_ret_stack *
 	}
 
 	if (!(mrstack->flags & (MCOUNT_FL_WRITTEN | SKIP_FLAGS))) {
-		if (record_ret_stack(mtdp, UFTRACE_ENTRY, mrstack))
+		if (record_ret_stack(mtdp, UFTRACE_ENTRY, mrstack)) {
+			/* the EXIT record is dropped with it */
+			mtdp->shmem.losts += count - 1;
 			return 0;
+		}
 
 		count--;
 	}
